@@ -548,6 +548,93 @@ def random_op(rng, items, nid):
     return ['addother', 1]
 
 
+# ---- G. routes across a meridian / over a pole ------------------------------------------
+# Mechanism class: anything in the speed filter that measures a hop by differences of the bounded
+# [-180, 180) / [-90, 90] coordinates instead of on the sphere (pre-rejections, bounding-box
+# shortcuts, planar distances, a distance call fed unwrapped longitudes).  A vessel sails a route
+# that crosses a chosen meridian (the +-180 one, the prime one, a seeded one) once or several times,
+# east- or westbound, at latitudes from the equator to 88.5 degrees, or passes within metres to
+# kilometres of a pole (longitudes jump by up to 180 degrees there); legs run at the nominal speed
+# s0 or at 0.13 / 0.07 of it, sampling is irregular, some pings repeat a timestamp and some are
+# displaced far off the route (outliers, possibly to the other side of the line).  Limits are
+# s0 x {0.031, 0.29, 3.7, 41} and 0 / 1e12: well under and well over the leg speeds.
+def wrap_lon(lon):
+    return (lon + 180.0) % 360.0 - 180.0
+
+
+ROUTE_LATS = [0.0, 5.0, -5.0, 30.0, -30.0, 52.0, -52.0, 66.0, -66.0, 78.0, -78.0, 84.0, -84.0, 88.5, -88.5]
+ROUTE_FACTORS = [0.031, 0.29, 3.7, 41.0]
+
+
+def gen_route(rng, n, where):
+    """-> (items in chronological order, nominal speed s0)"""
+    s0 = rng.choice([0.5, 8.0, 8.0, 30.0, 250.0, 900.0])
+    unit = rng.choice([1, 10, 60, 600])
+    pole = where in ('npole', 'spole')
+    if pole:
+        lat0 = 90.0
+        while s0 * unit > 20_000:                      # stay within a few hundred km of the pole
+            unit = max(1, unit // 10)
+    else:
+        lat0 = rng.choice(ROUTE_LATS) + rng.uniform(-0.4, 0.4)
+        while s0 * unit > 0.1 * R_REF * math.cos(math.radians(lat0)) and unit > 1:
+            unit = max(1, unit // 10)                  # a leg stays short against the parallel's radius
+    step = s0 * unit
+    mer = {'anti': 180.0, 'prime': 0.0}.get(where)
+    if mer is None:
+        mer = rng.uniform(-180.0, 180.0) if not pole or rng.random() < 0.5 else rng.choice([0.0, 90.0, 180.0, -90.0, 179.9])
+    east = rng.choice([1, -1])
+    kc = rng.randint(1, max(1, n - 1))                 # the line is crossed just before ping kc
+    a = -east * step * (kc - rng.uniform(0.2, 0.8))    # metres east of the line (pole: along the pass)
+    b = rng.choice([0.0, 3.0, -40.0, 700.0, -9000.0]) if pole else 0.0   # pole: lateral offset of the pass; else: metres north
+    t = rng.randint(0, 1000) * SEC
+    style = rng.choice([None, None, 'utc'])
+    items = []
+    for k in range(n):
+        if k:
+            dup = rng.random() < 0.08
+            dt = 0 if dup else unit * rng.choice([1, 1, 1, 2, 5])
+            m = rng.choice([1.0, 1.0, 1.0, 0.13, 0.07])
+            if rng.random() < 0.12:
+                east = -east                            # turns back: crosses the line again
+            h = rng.uniform(-0.5, 0.5)
+            leg = s0 * m * (dt if dt else unit * 0.01)
+            a += east * leg * math.cos(h)
+            if not pole:
+                b += leg * math.sin(h)
+            t += dt * SEC
+        x, y = a, b
+        if rng.random() < 0.14:                         # an outlier: recorded far off the route
+            j = min(8.0e6, step * rng.choice([30, 100, 400]))
+            g = rng.uniform(0, 2 * math.pi)
+            x, y = a + j * math.cos(g), b + j * math.sin(g)
+        if pole:
+            colat = math.degrees(math.hypot(x, y) / R_REF)
+            lat = (90.0 - colat) * (1 if where == 'npole' else -1)
+            lon = wrap_lon(mer + math.degrees(math.atan2(y, x)))
+        else:
+            lat = max(-89.9, min(89.9, lat0 + math.degrees(y / R_REF)))
+            lon = wrap_lon(mer + math.degrees(x / (R_REF * math.cos(math.radians(lat0)))))
+        so = style or rng.choice(STYLES)
+        u = rng.random()
+        kind, en = ('inst', t) if u < 0.3 else ('pt', t) if u < 0.8 else ('pt', t + rng.choice([1, 2]) * unit * SEC)
+        items.append({'st': t, 'en': en, 'so': so, 'eo': so, 'pos': [lon, lat], 'kind': kind})
+    return items, s0
+
+
+def route_spec(rng, n, where):
+    items, s0 = gen_route(rng, n, where)
+    lims = [s0 * f for f in ROUTE_FACTORS] + [0.0, 1e12, s0 * math.exp(rng.uniform(-4, 4))]
+    ops = [['fij', v, 0] for v in lims]
+    ev = events(items)
+    # the filter applied to its own result and to a slice (the previously kept ping is then another one)
+    ops += [['fij', s0 * 3.7, 1], ['fij', s0 * 0.29, 0], ['fij', s0 * 41.0, 0],
+            ['slice', rng.choice(ev), rng.choice(ev) + 1, 'utc', 1], ['fij', s0 * 3.7, 0], ['fij', s0 * 0.031, 0]]
+    if rng.random() < 0.3:
+        rng.shuffle(items)                              # Track sorts; input order must not matter
+    return {'items': items, 'ops': ops}
+
+
 def main():
     ck = Check('C17')
     ck.build_theories(['theories/Props/C17.vo', 'theories/Corr/CollK.vo'])
@@ -619,6 +706,11 @@ def main():
             items = [dict(it, kind='nodt') if j == pos else dict(it) for j, it in enumerate(base)]
             specs.append(('nodt', {'items': items, 'ops': [['conv', 1]]}))
         specs.append(('nodt', {'items': [dict(it, kind='nodt') for it in base], 'ops': [['conv', 1]]}))
+    # G. routes across the +-180 / prime / a seeded meridian and over the poles (see gen_route)
+    for where, reps in (('anti', 70), ('prime', 25), ('mer', 15), ('npole', 25), ('spole', 20)):
+        for _ in range(reps if quick else reps * 10):
+            n = rng.choice([2, 3, 4, 5, 6, 8, 10, 12, 14]) if rng.random() < 0.9 else rng.choice([18, 24])
+            specs.append(('route:' + where, route_spec(rng, n, where)))
     # F. fixed regression corpus: D18 (open slice must keep a long shape that starts early and
     #    ends after the last-starting shape), duplicate timestamps with distinct ends, exact tie
     HOUR = 3600 * SEC
@@ -648,6 +740,7 @@ def main():
 
     cases, meta, failing = [], [], {}
     near = steps = ties = merged = 0
+    ref = {'judged': 0, 'skipped': 0, 'dropped': 0, 'anti': 0, 'prime': 0, 'pole': 0}
     distinct = set()
     for cls, spec in specs:
         lit, m, fails, stats = run_case(spec)
@@ -660,6 +753,11 @@ def main():
         ties += stats['exact_ties']
         merged += stats['merged']
         steps += stats['steps']
+        ref['judged'] += stats['ref_judged']
+        ref['skipped'] += stats['ref_skipped']
+        ref['dropped'] += stats['ref_dropped']
+        for k in ('anti', 'prime', 'pole'):
+            ref[k] += stats['ref_hops'][k]
         ck.count(cls)
         for c in stats['classes']:
             ck.count('op:' + c)
@@ -677,6 +775,12 @@ def main():
     ck.cov['near_ties_excluded'] = near
     ck.cov['exact_speed_ties_examined'] = ties
     ck.cov['pings_created_by_convolve'] = merged
+    ck.cov['speed_filters_judged_by_the_independent_reference'] = ref['judged']
+    ck.cov['speed_filters_not_judged_by_it_(a_hop_within_1pct_of_the_limit)'] = ref['skipped']
+    ck.cov['shapes_it_dropped'] = ref['dropped']
+    ck.cov['kept_hops_across_the_antimeridian'] = ref['anti']
+    ck.cov['kept_hops_across_the_prime_meridian'] = ref['prime']
+    ck.cov['kept_hops_within_1deg_of_a_pole'] = ref['pole']
     for i in (0, len(cases) // 3, len(cases) - 50):
         ck.sample(cases[max(0, min(i, len(cases) - 1))][:1500])
 
@@ -702,11 +806,17 @@ def main():
                    'and None; speed limits at/one ulp below/one ulp above pairwise speeds (cases where the float decision '
                    'differs from the exact one on an examined pair are excluded and counted in near_ties_excluded); chains '
                    'of <= 6 add/slice/filter/convolve/speed-filter operations; shapes without dt; empty tracks. '
+                   'routes of 2..24 pings crossing the +-180 / prime / a seeded meridian (both directions, latitudes 0..88.5, turning '
+                   'back, irregular sampling, repeated timestamps, far outliers) or passing a pole at 0 m..9 km, with limits well under '
+                   'and well over the leg speeds, filtered directly, after a first filter and after a slice; EVERY speed-filter result '
+                   '(all families) is also compared with a greedy reference that measures each hop itself on the unit sphere, skipping '
+                   'results where an examined hop is within 1% of the limit. '
                    'evaluations = tracks constructed + operation results compared. non-trivial = the input has shapes sharing '
                    'a start, or one that overlaps a later start, and some operation drops a shape (distinct specs counted)',
               assumptions=['datetime -> integer microseconds UTC (+ utcoffset for .time()) is a faithful abstraction of Python datetime comparison/subtraction/equality/hash',
                            'the distance function is the table of values haversine_distance_meters itself returned on the case\'s centroids (Section variable dist in the theorems)',
                            'speed comparison is modelled in exact rationals; float rounding of dx/dt is outside the model (near-ties excluded and counted)',
+                           'the independent reference uses a sphere of radius 6 371 000 m (the documented EARTH_RADIUS) and never decides a hop whose speed is within 1% of the limit',
                            'NaN speeds, datetime overflow and non-slice indices are not modelled'])
 
 
